@@ -3,6 +3,8 @@
    Statements only. *)
 From Coq Require Import ZArith List Bool.
 From CP Require Import Core.Bytes Spec.PL Spec.KeyTag Spec.DnsSpec Dns.KeyTag Lemmas.KeyTagLemmas Lemmas.DnsSpecLemmas.
+From CP Require Import Spec.Registry Lemmas.RegistryTables.
+From CPGen Require Import Tables.
 Open Scope Z_scope.
 
 (* the key tag the code computes is the RFC 4034 Appendix B value for EVERY RDATA of even length ... *)
@@ -31,3 +33,8 @@ Proof. exact dec_enc_labels. Qed.
 Theorem C08_spec_ds_roundtrip : forall kt a d digest, 0 <= kt < 65536 -> 0 <= a < 256 -> 0 <= d < 256 ->
   dec_ds (enc_ds kt a d digest) = Some (kt, a, d, digest).
 Proof. exact dec_enc_ds. Qed.
+
+(* DNSKEY flag bits of the live library are those of RFC 4034 / RFC 5011 *)
+Theorem C08_code_points_match_registry :
+  registry_agrees int_enum_members dns_registry = true /\ registry_covers int_enum_members dns_registry = true.
+Proof. exact dns_code_points. Qed.
